@@ -598,7 +598,7 @@ func runWorker(master uint64, worker, workers, scheds, maxProgs int, budget floa
 					res.Violations = append(res.Violations, rp)
 				}
 			}
-			if r.Deadlock || r.Capped {
+			if r.Deadlock || r.Capped || spinLeak {
 				// parked goroutines cannot be reclaimed: end this worker here
 				stopWorker = true
 			}
